@@ -45,7 +45,8 @@ def gen_cases(rng, n):
                        wild=rng.choice([0, 0.03, 0.1]))
         claims, calls, _ = hg.module_history(rng.randrange(0, 4), rng.choice([0, 1, 2, 2, 3, 4]), rng.choice([0.1, 0.3, 0.5]),
                                              permute=rng.choice([0, 0, 0.5, 1.0]), repeat_ax=rng.choice([0, 0.3, 0.6]),
-                                             bad_inst=rng.choice([0, 0, 0.1, 0.3]))
+                                             bad_inst=rng.choice([0, 0, 0.1, 0.3]), via_pattern=rng.choice([0, 0.3, 0.7]),
+                                             many_syms=rng.choice([0] * 24 + [130, 200]))
         cases.append(dict(claims=claims, calls=calls))
     return cases
 
@@ -153,8 +154,12 @@ def run(tier, seed):
         if c.get('ri') is None:
             continue
         ri, rm, hi = c['ri'], c['rm'], c['hi']
-        names = [IC.call_name(x) for x in c['calls']]
-        f = IC.numbering(hi['tbl'])
+        xc = c['x'].split()
+        names = [IC.call_name(x) for x in xc]
+        f = IC.numbering([t for t in hi['tbl'] if t.lstrip('-').isdigit()])
+        if hi['tbl'] and hi['tbl'][0].startswith('BROKEN'):
+            oracle_fail.append(('symbol-renumbered', 'the serialiser wrote one symbol with two different numbers (or skipped numbers)',
+                                dict(history=lines[ci], observed=hi['tbl'][0])))
         marks = []
         old_len = 0
         diverged = False
@@ -210,13 +215,13 @@ def run(tier, seed):
                 sig = None
                 if name in ('in', 'ip') and stack:
                     # the rule as requested by the caller: conclusion.instantiate(delta) (harness-side port)
-                    fx = c['x'].split()[k].split(':')
+                    fx = xc[k].split(':')
                     dl = {int(fx[i]): G.dec(fx[i + 1]) for i in range(2, len(fx), 2)}
                     want_top = ('T' if name == 'in' else 'P') + G.show(G.py_inst(G.dec(fx[1]), dl))
                     if stack[0] != want_top:
                         sig = f'tracker-term-is-not-the-requested-instance:{name}'
                         oracle_fail.append((sig, 'the term the tracker holds after instantiate is not pattern.instantiate(delta)',
-                                            dict(history=lines[ci], call_index=k, call=c['calls'][k], expanded_call=c['x'].split()[k],
+                                            dict(history=lines[ci], expanded_history=' '.join(xc[:k + 1]), call_index=k, call=xc[k], expanded_call=xc[k],
                                                  tracker=a['tracker'], requested_instance=want_top, checker=ro)))
                         n_div[sig] = n_div.get(sig, 0) + 1
                         sig = None
@@ -231,14 +236,14 @@ def run(tier, seed):
                     sig_d8 = f'D8:{PUBLISH[name]}:not-popped'
                     n_div[sig_d8] = n_div.get(sig_d8, 0) + 1
                     oracle_fail.append((sig_d8, f'StatefulInterpreter.{PUBLISH[name]} does not pop; the checker\'s Publish does',
-                                        dict(history=lines[ci], call_index=k, call=c['calls'][k], tracker=a['tracker'], checker=ro)))
+                                        dict(history=lines[ci], call_index=k, call=xc[k], tracker=a['tracker'], checker=ro)))
                 if sig:
                     diverged = True
             R.case(key, nontrivial, f'{name}:' + ('diverged' if diverged else 'agree'))
             if diverged:
                 n_div[sig] = n_div.get(sig, 0) + 1
                 oracle_fail.append((sig, 'checker state on the bytes emitted so far differs from the generator-side tracker',
-                                    dict(history=lines[ci], call_index=k, call=c['calls'][k], expanded_call=c['x'].split()[k],
+                                    dict(history=lines[ci], expanded_history=' '.join(xc[:k + 1]), call_index=k, call=xc[k], expanded_call=xc[k],
                                          tracker=a['tracker'], residue_marks=''.join('1' if m else '0' for m in marks),
                                          checker=ro, model_wf_code=wcode, corpus=c.get('corpus'))))
                 break
